@@ -141,4 +141,53 @@ def qsortFB (cmp : List Byte → List Byte → Int) (size : Nat) : Nat → List 
 def qsortB (cmp : List Byte → List Byte → Int) (size : Nat) (rs : List Int) (mem : List Byte) : Option (List Byte × List Int) :=
   qsortFB cmp size (mem.length / size + 1) rs mem
 
+/-! ## bsearch.c on bytes: `left`, `right`, `mid` are byte offsets from `base`,
+`mid = left + ((right - left) / (size << 1) * size)`; the key object is opaque
+(`κ`), the comparator gets it and the `size` bytes of an element -/
+
+section
+variable {κ : Type} (cmp : κ → List Byte → Int) (key : κ) (size : Nat) (mem : List Byte)
+
+/-- `while (left + size < right) { mid = …; if (compar(key, mid) < 0) right = mid; else left = mid; }` -/
+def bsLoopB : Nat → Nat → Nat → Option (Nat × Nat)
+  | 0, _, _ => none
+  | f + 1, left, right =>
+    if left + size < right then
+      let mid := left + ((right - left) / (size * 2) * size)
+      match elemAt size mem mid with
+      | none => none
+      | some x => if cmp key x < 0 then bsLoopB f left mid else bsLoopB f mid right
+    else some (left, right)
+
+/-- `bsearch`: `some none` = NULL, `some (some p)` = `base + p` -/
+def bsearchB (nmemb : Nat) : Option (Option Nat) :=
+  if nmemb = 0 then some none
+  else
+    match bsLoopB cmp key size mem (nmemb + 1) 0 (size * nmemb) with
+    | none => none
+    | some (left, _) =>
+      match elemAt size mem left with
+      | none => none
+      | some x => if cmp key x = 0 then some (some left) else some none
+
+/-- the loop of upper_bound / lower_bound (repaired): `while (left < right) { mid = …;
+if (test) right = mid; else left = mid + size; } return left;` -/
+def bndLoopB (goLeft : List Byte → Bool) : Nat → Nat → Nat → Option Nat
+  | 0, _, _ => none
+  | f + 1, left, right =>
+    if left < right then
+      let mid := left + ((right - left) / (size * 2) * size)
+      match elemAt size mem mid with
+      | none => none
+      | some x => if goLeft x then bndLoopB goLeft f left mid else bndLoopB goLeft f (mid + size) right
+    else some left
+
+def upperBoundB (nmemb : Nat) : Option Nat :=
+  bndLoopB size mem (fun x => decide (cmp key x < 0)) (nmemb + 1) 0 (size * nmemb)
+
+def lowerBoundB (nmemb : Nat) : Option Nat :=
+  bndLoopB size mem (fun x => decide (cmp key x ≤ 0)) (nmemb + 1) 0 (size * nmemb)
+
+end
+
 end Igris.C11
